@@ -494,7 +494,9 @@ func (h *H) compare(exp, got call) {
 		if !sameValue(exp.prepVal, got.prepVal) {
 			core.Problem("%s received prep value %s, want %s", got, descVal(got.prepVal), descVal(exp.prepVal))
 		}
-		if got.err != exp.err {
+		// (the property asks for "the error of the last attempt": that very value, or a wrapper
+		// through which errors.Is still finds it — never another attempt's error)
+		if got.err != exp.err && (got.err == nil || exp.err == nil || !errors.Is(got.err, exp.err)) {
 			core.Problem("%s received error %v, want the error of the last attempt %v", got, got.err, exp.err)
 		}
 	case pPost:
